@@ -2,8 +2,9 @@ import os, subprocess, sys
 sys.path.insert(0, os.path.dirname(os.path.dirname(os.path.abspath(__file__))))
 import vlib
 
-# the generated table must have no offending row (the JMI / Call-Invite / addresses rows were repaired in /repo 968e727, 7d68095)
-EXPECTED_OFFENDING = "write=[] parse=[] clash=[] toxml=[]"
+# rows of the generated table known today to disagree with the specification (see known_findings.json): the unknown extensions.
+# (the JMI / Call-Invite / addresses rows were repaired in /repo 968e727, 7d68095)
+EXPECTED_OFFENDING = "write=[extensions] parse=[] clash=[] toxml=[extensions] spec=[extensions]"
 
 
 def name_offending_rows(chk):
@@ -41,8 +42,8 @@ SPEC = dict(
     translators=["sce_table.py"],
     extra=[name_offending_rows],
     exhaustive=True,
-    rule="messages built through the public QXmppMessage API from a catalogue of 34 extension fields (every setter of "
-         "QXmppMessage plus extended addresses; 75 value variants: each hint/chat-state/marker/JMI/call-invite type, 1-3 list "
+    rule="messages built through the public QXmppMessage API from a catalogue of 35 extension fields (every setter of "
+         "QXmppMessage plus extended addresses and application-supplied unknown extensions; 77 value variants: each hint/chat-state/marker/JMI/call-invite type, 1-3 list "
          "entries): every field singly in every variant, ALL pairs (twice), all fields together, all triples (thorough), and "
          "400 (quick) / 6000 (thorough) seeded random subsets. Per message 19 compared lines: children (tag, namespace, order) "
          "of toXml in ScePublic/SceSensitive/SceAll and of serializeExtensions(SceSensitive, jabber:client) inside a real SCE "
@@ -62,26 +63,32 @@ SPEC = dict(
         "translators/sce_table.py (regex reader of QXmppMessage.cpp, QXmppStanza.{h,cpp}, QXmppConstants_p.h and the helper classes' "
         "toXml/isX functions): its output is what the theorems are about; its reading of guards, tags and namespaces is validated "
         "on every run by the element-inventory correspondence (write and parse, all modes) against the real library",
-        "hand classification routing/hint/id/fallback/payload in lean/Qx/Model/C17Sce.lean (`classOf`, default payload) and the "
-        "independent hand whitelist + payload list in harness/cxx/sce.cpp, both read off the property text",
+        "the specification lean/Qx/Model/C17Spec.lean (wire identity -> kind -> class, default unknown = payload; one name-keyed "
+        "exception: the API field designated as explicit fallback text) and the independent hand whitelist + payload list in "
+        "harness/cxx/sce.cpp, both read off the property text and the XEPs",
         "QXmlStreamWriter / QDomDocument (namespace processing) as used by the harness to cut serialised parts into child elements",
     ],
     assumptions=[
         "value level (attributes, inner text of each element) is not modelled in Lean; it is covered by the harness oracle only "
         "(distinctive strings searched in the public bytes; getter values compared after the receive path) — partial",
-        "quantifier = the known message extensions: the stanza <error/> and application-supplied unknown extensions "
-        "(QXmppStanza::extensions()) are written by toXml in every mode and are outside the tables; reported as statistics "
-        "(info_unknown_extension_in_public_bytes)",
+        "the stanza <error/> is written by toXml in every mode and is outside the table (never set by the harness)",
+        "encrypted IQs / error replies are outside the property (messages): covered by translator anchors on the OMEMO code "
+        "(iq_outer_carries_no_payload) and four oracle-only checks on the real client; presences have no e2ee path in QXmppClient "
+        "(sendSensitive sends them in clear)",
         "the OMEMO <encrypted/> row sits under #ifdef BUILD_OMEMO, which the check build does not define: it is in the table "
         "(and in the theorems) but not exercised by the harness",
         "elements a foreign sender could send but this writer never produces (duplicates of single-valued fields, unknown tags "
         "in the chat-state/chat-marker namespaces) are outside the parse model",
     ],
-    level_text="Theorems for EVERY table satisfying decidable well-formedness predicates and EVERY message: public part has no "
-               "payload-class element; unsplit = public (+) sensitive as multisets up to explicit-fallback copies, each other element in "
-               "exactly one part; the receive path recovers every field and leaves nothing unknown. The predicates are decided in "
-               "the kernel on the table regenerated from the C++ at every run: the whole table is well-formed (table_wf), so all three "
-               "hold of today's code for all messages (today_*); toXml(SceSensitive) equals the envelope content.",
+    level_text="Specification (lean/Qx/Model/C17Spec.lean) written from the property text and the XEPs, keyed by wire identity "
+               "(element name, namespace): which elements are conversational payload, which routing / hint / id / explicit fallback. "
+               "Theorems for EVERY table that agrees with it (decidable predicates) and EVERY message: every element of the public "
+               "part has a wire identity the spec allows outside the envelope (or is the designated fallback text); unsplit = public "
+               "(+) sensitive as multisets up to explicit-fallback copies, each other element in exactly one part; the receive path "
+               "recovers every field including the unknown extensions. The predicates are decided in the kernel on the table "
+               "regenerated from the C++ at every run, row by row and in both directions: today every row agrees with the spec except "
+               "`extensions` (application-supplied unknown extensions are written in clear and are missing from the envelope: defect "
+               "theorems + reproduction through the real QXmppClient::sendSensitive); everything else is proved for today's code.",
     level_note="Proved about the guard table, not about the C++ text: the table is extracted by a regex translator and tied to the "
                "library by differential inventories (exhaustive over singles and pairs, sampled beyond). Value-level secrecy and "
                "recovery are exploration (oracle), not proof.",
